@@ -16,7 +16,11 @@ TOL = 350
 
 
 def mk(sid, L, R, pattern, direction="in"):
-    c = S.Conv(sid, direction=direction, hold=L, tag="hold.%d.%d.%s.%s" % (L, R, pattern, direction))
+    c = S.Conv(sid, direction=direction, hold=L, tag="hold.%d.%d.%s.%s" % (L, R, pattern, direction),
+               est_writes=([b"\x00\x00\x00\x00"] * 2 if pattern == "silent-after-writes" else ()))
+    if pattern == "update-only-nilhandler":
+        c.nil_handler = True
+        c.scenario_extra = {"nil_handler": True}
     c.send(S.frame(S.OPEN, S.open_body(hold=R)))
     if pattern != "late-keepalive":
         c.send(S.frame(S.KEEPALIVE))
@@ -37,6 +41,11 @@ def mk(sid, L, R, pattern, direction="in"):
         for _ in range(3):
             steps += [["sleep", int(h * 600)], ["send", "c1", S.frame(S.KEEPALIVE).hex(), 0]]
         steps += [["recv_eof", "c1", h * 1000 + 1500]]
+    elif pattern == "update-only-nilhandler":
+        # UPDATE-only traffic (no KEEPALIVE) at 0.6h intervals to a plugin without an update handler, then silence
+        for _ in range(3):
+            steps += [["sleep", int(h * 600)], ["send", "c1", S.frame(S.UPDATE, b"\x00\x00\x00\x00").hex(), 0]]
+        steps += [["recv_eof", "c1", h * 1000 + 1500]]
     elif pattern == "update-just-before":
         steps += [["sleep", int(h * 1000 - 250)], ["send", "c1", S.frame(S.UPDATE, b"\x00\x00\x00\x00").hex(), 0],
                   ["recv_eof", "c1", h * 1000 + 1500]]
@@ -52,7 +61,8 @@ def convs(rng, tier):
     if tier == "thorough":
         pairs += [(3, 4), (4, 3), (6, 6), (9, 9), (6, 3), (5 + 1, 65535)]
     for (L, R) in pairs:
-        pats = ["silent"] if min(L, R) == 0 else ["silent", "ka-then-silent", "update-just-before", "late-keepalive"]
+        pats = ["silent", "silent-after-writes"] if min(L, R) == 0 else \
+            ["silent", "ka-then-silent", "update-just-before", "late-keepalive"] + (["update-only-nilhandler"] if (L, R) in ((3, 9), (9, 3)) else [])
         for p in pats:
             for d in (("in", "out") if tier == "thorough" or p == "silent" else ("in",)):
                 out.append(mk(sid, L, R, p, d))
@@ -61,47 +71,45 @@ def convs(rng, tier):
 
 
 def timing_check(c, e, o, r):
-    """The property on the observed timestamps."""
+    """The property on observed timestamps (one clock: corebgp runs inside the driver process).  "Early" is judged
+    against the time just before the remote wrote its last KEEPALIVE/UPDATE (it cannot have been received earlier), "late"
+    and the cadence against the recorded timer operations and wire times, with a tolerance for scheduling."""
     bad = []
     cr = next((x for x in r["conns"] if x["name"] == "c1"), None)
     if cr is None or not cr["msgs"]:
         return ["no connection observed"]
     msgs = cr["msgs"]
     h = c.h * 1000
-    est = any(cb["name"] == "OnEstablished" for cb in r["cbs"] or [])
+    est = [cb["at"] for cb in r["cbs"] or [] if cb["name"] == "OnEstablished" and cb["ph"] == "enter"]
     if not est:
         bad.append("hold (%d,%d): session did not establish" % (c.hold, c.h))
         return bad
+    t_est = est[0]
     sent = [m for m in msgs if m["t"] in (2, 4)]
     expiry = [m for m in msgs if m["t"] == 3 and m["b"].startswith("04")]
-    # when did the remote last send a KEEPALIVE/UPDATE: reconstruct from the step log timing is not
-    # available per step, so use the pattern's nominal schedule relative to establishment
-    t_est = next(cb["at"] for cb in r["cbs"] if cb["name"] == "OnEstablished")
     if c.h == 0:
-        if len([m for m in msgs if m["t"] == 4]) > 1:
-            bad.append("hold 0: periodic KEEPALIVE sent")
+        kas = [m for m in msgs if m["t"] == 4]
+        if len(kas) > 1:
+            bad.append("hold 0: periodic KEEPALIVE sent (%d KEEPALIVEs, the last %d ms after establishment)" % (len(kas), kas[-1]["at"] - t_est))
         if expiry or (cr["eof"] and cr["eof_at"] < t_est + 3500):
             bad.append("hold 0: session torn down during silence")
         return bad
-    if c.pattern in ("silent", "late-keepalive"):
-        last_rx = t_est
-    elif c.pattern == "ka-then-silent":
-        last_rx = t_est + 3 * int(c.h * 600)
-    else:
-        last_rx = t_est + int(h - 250)
+    rx = [m for m in (cr.get("sent") or []) if m["t"] in (1, 2, 4)]           # what the remote wrote: OPEN, UPDATE, KEEPALIVE
+    arms = [ev for ev in r["events"] or [] if ev["kind"] == "t.hold" and int(ev["args"][1]) > 0]
     if not expiry:
         bad.append("hold %d s: no Hold Timer Expired NOTIFICATION after silence" % c.h)
     else:
         t_exp = expiry[0]["at"]
-        if t_exp < last_rx + h - 60:
-            bad.append("hold %d s: expired %d ms after the last received message (early)" % (c.h, t_exp - last_rx))
-        if t_exp > last_rx + h + TOL + 150:
-            bad.append("hold %d s: expired %d ms after the last received message (late)" % (c.h, t_exp - last_rx))
+        if rx and t_exp < rx[-1]["at"] + h - 40:
+            bad.append("hold %d s: expired %d ms after the remote wrote its last message (early)" % (c.h, t_exp - rx[-1]["at"]))
+        before = [ev for ev in arms if ev["at"] <= t_exp]
+        if before and t_exp > before[-1]["at"] + h + TOL + 150:
+            bad.append("hold %d s: expired %d ms after the hold timer was last restarted (late)" % (c.h, t_exp - before[-1]["at"]))
         if not cr["eof"]:
             bad.append("connection not closed after hold timer expiry")
     # keepalive cadence while up
     times = [m["at"] for m in sent]
-    end = expiry[0]["at"] if expiry else (cr["eof_at"] or times[-1])
+    end = expiry[0]["at"] if expiry else (cr["eof_at"] or (times[-1] if times else t_est))
     pts = times + [end]
     for a, b in zip(pts, pts[1:]):
         if b - a > h / 3 + TOL:
@@ -122,8 +130,13 @@ def timer_convs(rng, tier):
     ka = S.frame(S.KEEPALIVE)
     for (L, R) in pairs:
         for direction in ("in", "out"):
-            for traffic in ([], [ka], [ka, upd, ka, upd, upd], [ka, ka, ka]):
-                c = S.Conv(sid, direction=direction, hold=L, tag="timerops.%d.%d.%d.%s" % (L, R, len(traffic), direction))
+            for traffic, mode in (([], ""), ([ka], ""), ([ka, upd, ka, upd, upd], ""), ([ka, ka, ka], ""),
+                                  ([ka, upd, upd, upd], "nilhandler"), ([ka, upd], "estwrites")):
+                c = S.Conv(sid, direction=direction, hold=L, tag="timerops.%d.%d.%d%s.%s" % (L, R, len(traffic), mode, direction),
+                           est_writes=([b"\x00\x00\x00\x00", b"\x00\x00\x00\x00"] if mode == "estwrites" else ()))
+                if mode == "nilhandler":
+                    c.nil_handler = True
+                    c.scenario_extra = {"nil_handler": True}
                 c.send(S.frame(S.OPEN, S.open_body(hold=R)))
                 for m in traffic:
                     c.send(m)
